@@ -179,7 +179,7 @@ Fixpoint ids_from (i : N) (n : nat) : list str :=
 (* the three shapes of `staticPolicies`; `B` is a policy body *)
 Inductive static_src (B : Type) :=
 | Concatenated (ps : list B)            (* one text: policies in textual order *)
-| SetOf (ps : list B)                   (* JSON array: each parsed with id None *)
+| SetOf (ps : list (bool * B))          (* JSON array: each parsed with id None; true = JSON policy *)
 | MapOf (m : list (str * B)).           (* JSON object id -> policy *)
 Arguments Concatenated {B} ps.
 Arguments SetOf {B} ps.
@@ -190,11 +190,16 @@ Fixpoint mem_str (x : str) (l : list str) : bool :=
 Fixpoint nodup_strs (l : list str) : bool :=
   match l with [] => true | x :: l' => negb (mem_str x l') && nodup_strs l' end.
 
-(* ids attached to the bodies before PolicySet::add; Policy::parse(None, _) gives "policy0" *)
+(* "JSON policy": the default id of Policy::from_json(None, _) *)
+Definition json_policy_id : str := [74; 83; 79; 78; 32; 112; 111; 108; 105; 99; 121]%N.
+Definition default_id (is_json : bool) : str := if is_json then json_policy_id else policy_id 0.
+
+(* ids attached to the bodies before PolicySet::add; Policy::parse(None, _) gives "policy0",
+   Policy::from_json(None, _) gives "JSON policy" *)
 Definition assign_ids {B} (s : static_src B) : list (str * B) :=
   match s with
   | Concatenated ps => combine (ids_from 0 (length ps)) ps
-  | SetOf ps => map (fun b => (policy_id 0, b)) ps
+  | SetOf ps => map (fun kb => (default_id (fst kb), snd kb)) ps
   | MapOf m => m
   end.
 
